@@ -99,6 +99,17 @@ def enumerate_hierarchies(tier: str):
                 h = tuple(Cls(privs[i], tuple(graph[i]), pl(i, n)) for i in range(n))
                 if interesting(h):
                     yield h, name
+    # properties instead of methods: a property p1 defined by any non-empty subset of the classes (redefined by the
+    # subclass itself, by a nearer ancestor, or reachable twice through a diamond)
+    prop_graphs = {"pchain2": [(), (0,)], "pchain3": [(), (0,), (1,)], "pfork3": [(), (), (0, 1)], "pdiamond4": [(), (0,), (0,), (1, 2)]}
+    for name, graph in prop_graphs.items():
+        n = len(graph)
+        for privs in itertools.product((False, True), repeat=n):
+            for k in range(1, n + 1):
+                for definers in itertools.combinations(range(n), k):
+                    h = tuple(Cls(privs[i], tuple(graph[i]), ("p1",) if i in definers else ()) for i in range(n))
+                    if interesting(h):
+                        yield h, name
     # extras on a private base of a simple chain / fork
     for extras in itertools.chain.from_iterable(itertools.combinations(["private_method", "property", "static", "nested", "classmethod"], k) for k in (1, 2, 5)):
         for graph in ([(), (0,)], [(), (0,), (1,)], [(), (), (0, 1)]):
@@ -120,7 +131,7 @@ def render(h: tuple[Cls, ...], u: str, split: bool | str) -> dict[str, str]:
         bases = "(" + ", ".join(cname(b) for b in c.bases) + ")" if c.bases else ""
         body = []
         for m in c.methods:
-            body.append(f"    def {m}{u}(self) -> {TYPES[i]}:\n        ...\n")
+            body.append((f"    @property\n" if m.startswith("p") else "") + f"    def {m}{u}(self) -> {TYPES[i]}:\n        ...\n")
         if "private_method" in c.extras:
             body.append(f"    def _pm{u}x{i}(self) -> int:\n        ...\n")
         if "property" in c.extras:
@@ -160,7 +171,7 @@ def expectations(h: tuple[Cls, ...]):
             d += 1
         mro = c3(h, ci) or [ci]
         required: dict[str, set[int] | None] = {}
-        for m in ("m1", "m2"):
+        for m in ("m1", "m2", "p1"):
             if m in c.methods:
                 required[m] = {ci}
                 continue
@@ -220,7 +231,7 @@ def run(rep: Report, tier: str, seed: int) -> None:
             units.append((u3, h, family + ":same", "same"))
     rep.rule = (
         f"all class hierarchies of <= {3 if tier == 'quick' else 4} classes (each public/private, ordered base lists of size <= 2 over earlier classes, method subsets of {{m1,m2}} with a distinct return type per definer) that have a consistent MRO and a public class with a private base;"
-        " 4-5 class chains, forks, diamonds, ladders under all privacy assignments x 3 method placements; private bases with private method / property / static / class method / nested class; private bases in a second module; private bases that carry the same class names in every module; one hierarchy per module; distinct = distinct hierarchy"
+        " 4-5 class chains, forks, diamonds, ladders under all privacy assignments x 3 method placements; a property defined by every non-empty subset of the classes of a 2/3-chain, a fork and a diamond under all privacy assignments; private bases with private method / property / static / class method / nested class; private bases in a second module; private bases that carry the same class names in every module; the 'extras' family also under naming conversion; one hierarchy per module; distinct = distinct hierarchy"
     )
 
     def label(h, family) -> str:
@@ -241,7 +252,7 @@ def run(rep: Report, tier: str, seed: int) -> None:
             return
         idx = index_stubs(obs)
         for u, h, family, split in us:
-            lb = label(h, family)
+            lb = label(h, family) + ("|nc" if opts.convert else "")
             rep.case(lb, True, sample={"hierarchy": lb, "python": next(iter(render(h, u, split).values()))[:400]} if int(u) % 1499 == 0 else None)
             mini = build([(u, h, family, split)])[0]
             for ci, sub_expected, required, ex_req, ex_forb, reach in expectations(h):
@@ -251,7 +262,7 @@ def run(rep: Report, tier: str, seed: int) -> None:
                     rep.extra["class_not_found(C03)"] = rep.extra.get("class_not_found(C03)", 0) + 1
                     continue
                 path, _, d = hits[0]
-                sig0 = shape_sig(h, ci) + ("|split" if split is True else ("|same-names" if split == "same" else ""))
+                sig0 = shape_sig(h, ci) + ("|split" if split is True else ("|same-names" if split == "same" else "")) + ("|nc" if opts.convert else "")
 
                 def viol(clause, feat, detail, sig0=sig0, lb=lb, mini=mini, d=d) -> None:
                     rep.violation(clause, f"{clause}:{feat}|{sig0}", {"hierarchy": lb, "class": d.py_name, "members": [(m.kind, m.py_name, [r.type.render() for r in (m.results or []) if r.type]) for m in d.members], "sub": [p.render() for p in d.parents], **detail}, files=mini, src_rel=PKG, opts=opts)
@@ -264,12 +275,17 @@ def run(rep: Report, tier: str, seed: int) -> None:
                     rep.ok("member-once")
                 for m, definers in required.items():
                     nm = f"{m}{u}"
-                    shown = [x for x in d.members if x.py_name == nm and x.kind == "fun"]
+                    is_prop = m.startswith("p")
+                    shown = [x for x in d.members if x.py_name == nm and x.kind == ("attr" if is_prop else "fun")]
                     if not shown:
+                        if is_prop and ci not in (definers or set()):
+                            # inherited properties are counted, not required (the statement names methods)
+                            rep.extra["inherited_property_missing(dontcare)"] = rep.extra.get("inherited_property_missing(dontcare)", 0) + 1
+                            continue
                         viol("inherited-present", "missing" if ci not in (definers or set()) else "own-missing", {"method": nm})
                         continue
                     rep.ok("inherited-present")
-                    types = {r.type.render() for x in shown for r in (x.results or []) if r.type}
+                    types = {x.type.render() for x in shown if x.type} if is_prop else {r.type.render() for x in shown for r in (x.results or []) if r.type}
                     ok_types = {IMG[TYPES[a]] for a in definers}
                     if not types <= ok_types:
                         viol("precedence", "own" if definers == {ci} else "nearest", {"method": nm, "shown_result": sorted(types), "acceptable": sorted(ok_types)})
@@ -306,6 +322,9 @@ def run(rep: Report, tier: str, seed: int) -> None:
     same = [x for x in units if x[3] == "same"]
     # equally named private classes make the analyser's name-keyed tables grow with the number of modules: small runs
     groups = [(plain[i : i + 500], Opts()) for i in range(0, len(plain), 500)] + [(same[i : i + 12], Opts()) for i in range(0, len(same), 12)]
+    # private members of private bases must stay out under naming conversion too (converted names lose their underscore)
+    extras_units = [x for x in plain if x[2].startswith("extras")]
+    groups += [(extras_units[i : i + 500], Opts(convert=True)) for i in range(0, len(extras_units), 500)]
     run_packed(groups, build, on_group, stats)
     rep.extra.update(stats)
     rep.extra["hierarchies"] = len(units)
